@@ -395,7 +395,7 @@ class Lattice:
         want: 'scalar' (a number or (mantissa, exponent)), 'tn' (a network to close), 'envs' (handled by caller)"""
         self.nruns += 1
         base = {"tid": self.tid, "scheme": scheme, "mode": str(cfg.get("mode", "")), "closed": bool(cfg.get("closed", False)),
-                "cutoff0": True, "run": self.nruns}
+                "cutoff0": float(cfg.get("cutoff", 0.0)) == 0.0, "run": self.nruns}
         self.recs.append(dict(base, ev="run", cfg={k: str(v) for k, v in cfg.items()}, cap=cap))
         rec = Recorder(self, cap, base)
         ret = dict(base, ev="return", cap=cap, exc="", ongrid=True, result=[0, 0], steps=[])
@@ -457,7 +457,7 @@ class Lattice:
 
 
 # =============================================================================== environments
-def env_record(lat, base, cap, env, claim_sites, key, absorbed, dense):
+def env_record(lat, base, cap, env, claim_sites, key, absorbed, dense, allbonds=False):
     """one stored environment closed with the part of the lattice it excludes (plain numpy)"""
     rec = dict(base, ev="env", cap=cap, exc="", ongrid=True, closedval=[0, 0], dangling=0, cover=[], bonds=[])
     rec.update(key)
@@ -490,6 +490,12 @@ def env_record(lat, base, cap, env, claim_sites, key, absorbed, dense):
                 sz, n = U.group_bond(env, [tids[x]], [tids[y]])
                 if n:
                     rec["bonds"].append([0, 0, sz])
+    if allbonds:
+        # every label joining two tensors of the environment (all stages were compressed and the cap is not below
+        # the original lattice bonds): each of them is subject to the cap
+        for ix, tids in env.ind_map.items():
+            if len(tids) == 2:
+                rec["bonds"].append([0, 0, int(env.ind_size(ix))])
     return rec
 
 
@@ -845,10 +851,168 @@ def run_envs(lat, scheme, cfg, cap, call, what, model=None):
             absorbed = idx if "min" in side else (n_lines - 1 - idx)
             k = {"kind": "line", "side": side, "idx": int(idx), "i0": 0, "j0": 0, "xb": 0, "yb": 0,
                  "final": bool(absorbed == n_lines - 1)}
-        r = env_record(lat, base, cap, env, claim, k, absorbed, bool(cfg.get("dense", False)))
+        r = env_record(lat, base, cap, env, claim, k, absorbed, bool(cfg.get("dense", False)),
+                       allbonds=bool(cfg.get("allbonds", False)) and cap >= max(sz for _, _, sz in lat.edges))
         r["dangling_pos"] = bool(r["dangling"] > 0)
         r["dense_eq"] = bool(cfg.get("dense", False) and cfg.get("equalize_norms", False))
         lat.recs.append(r)
+
+
+# ------------------------------------------------------------------------------- systematic grids
+def trunc_caps(need, floor):
+    """truncating caps: one below the exact bond size, and the smallest cap not below `floor`"""
+    return sorted({c for c in (need - 1, max(floor, 1), max(floor, need // 2)) if 1 <= c < need})
+
+
+def grid_jobs_2d(lat, rng, stats):
+    """canonize x cutoff x mode, judged on the cap clause (and on exactness when cutoff = 0 and the cap suffices):
+    contract_boundary, contract_boundary_from_* and compute_environments from a random side"""
+    if any(lat.cyc):
+        return
+    third = rng.choice(["zipup", "dm", "local-early", "fit", "src", "projector2d", "full-bond"])
+    for mode in ("mps", "direct", third):
+        for canonize in (False, True):
+            for cutoff in (0.0, 1e-10):
+                if mode == "full-bond" and cutoff != 0.0:
+                    continue
+                core = mode in ("mps", "direct") and not canonize and cutoff == 0.0
+                for what in (["boundary", "step", "envline"] if core else [rng.choice(["boundary", "step", "envline"])]):
+                    side = rng.choice(SIDES_2D)
+                    L = lat.Lx if side[0] == "x" else lat.Ly
+                    cfg = {"mode": mode, "canonize": canonize, "cutoff": cutoff, "side": side, "what": what}
+                    kw = {"canonize": canonize}
+                    if mode in ("full-bond", "projector2d"):
+                        kw = {}
+                    if mode == "mps" and rng.random() < 0.5:
+                        kw["sweep_reverse"] = cfg["sweep_reverse"] = True
+                    if lat.layered and mode not in ("full-bond", "projector2d") and rng.random() < 0.5:
+                        kw["layer_tags"] = cfg["layer_tags"] = rng.choice([("KET", "BRA"), ("BRA", "KET")])
+                    if what == "step":
+                        if L < 3:
+                            what = cfg["what"] = "boundary"
+                        else:
+                            k = rng.randrange(1, L - 1)
+                            cfg["range"] = (0, k) if "min" in side else (L - 1 - k, L - 1)
+                    if what == "boundary":
+                        def call(rec, cap, cfg=cfg, kw=kw):
+                            return lat.tn.contract_boundary(max_bond=cap, cutoff=cfg["cutoff"], mode=eff_mode(rec, cfg["mode"], "mps"),
+                                                            sequence=[cfg["side"]], **kw)
+                        want, scheme = "scalar", "grid:contract_boundary"
+                    elif what == "step":
+                        def call(rec, cap, cfg=cfg, kw=kw):
+                            tn = lat.tn.copy()
+                            rg = {"xrange": cfg["range"], "yrange": None} if cfg["side"][0] == "x" else {"xrange": None, "yrange": cfg["range"]}
+                            tn.contract_boundary_from_(from_which=cfg["side"], max_bond=cap, cutoff=cfg["cutoff"],
+                                                       mode=eff_mode(rec, cfg["mode"], "mps"), **rg, **kw)
+                            return tn
+                        want, scheme = "tn", "grid:contract_boundary_from"
+                    else:
+                        def call(rec, cap, cfg=cfg, kw=kw):
+                            return lat.tn.compute_environments(cfg["side"], max_bond=cap, cutoff=cfg["cutoff"],
+                                                               mode=eff_mode(rec, cfg["mode"], "mps"), **kw)
+                        want, scheme = "envs", "grid:compute_environments"
+                    need = dry_need(lat, call)
+                    if need is None:
+                        stats["raised"] = stats.get("raised", 0) + 1
+                        continue
+                    caps = trunc_caps(need, 2)[:2] + ([max(need, 1)] if (cutoff == 0.0 and rng.random() < 0.5) or need <= 1 else [])
+                    for cap in caps:
+                        if want == "envs":
+                            run_envs(lat, scheme, cfg, cap, call, "line")
+                        else:
+                            lat.run(scheme, cfg, cap, call, want)
+                    stats[scheme] = stats.get(scheme, 0) + 1
+
+
+def plaq_grid_jobs(lat, rng, stats, nmax):
+    """compute_plaquette_environments: first_contract x block sizes with a truncating cap; with both stages compressed
+    every bond of every returned environment is subject to the cap"""
+    if any(lat.cyc):
+        return
+    maxedge = max(sz for _, _, sz in lat.edges)
+    combos = [(xb, yb, fc) for (xb, yb) in ((1, 1), (1, 2), (2, 1), (2, 2)) for fc in (None, "x", "y")
+              if xb <= lat.Lx and yb <= lat.Ly and not (xb == lat.Lx and yb == lat.Ly)]
+    rng.shuffle(combos)
+    cands = []
+    for xb, yb, fc in combos:
+        mode = rng.choice(["mps", "mps", "mps", "zipup", "direct", "dm"])
+        sd = False if fc is not None else rng.choice([False, None])
+        # which stage comes second, as documented for first_contract=None
+        first = fc or ("y" if xb > yb else "x" if yb > xb else "x" if lat.Lx >= lat.Ly else "y")
+        second_dense = sd if sd is not None else ((xb if first == "x" else yb) < 2)
+        cfg = {"mode": mode, "what": "plaq", "xb": xb, "yb": yb, "first_contract": fc, "second_dense": sd, "allbonds": not second_dense,
+               "route": first}
+        kw0 = {}
+        if lat.layered and rng.random() < 0.5:
+            kw0["layer_tags"] = cfg["layer_tags"] = rng.choice([("KET", "BRA"), ("BRA", "KET")])
+        if rng.random() < 0.3:
+            kw0["canonize"] = cfg["canonize"] = False
+
+        def call(rec, cap, cfg=cfg, kw0=kw0):
+            return lat.tn.compute_plaquette_environments(cfg["xb"], cfg["yb"], max_bond=cap, cutoff=0.0, mode=eff_mode(rec, cfg["mode"], "mps"),
+                                                         first_contract=cfg["first_contract"], second_dense=cfg["second_dense"], **kw0)
+        need = dry_need(lat, call)
+        if need is None:
+            stats["raised"] = stats.get("raised", 0) + 1
+            continue
+        cands.append((cfg, call, need))
+    # configurations in which something is compressed below its exact size come first, the y-first and x-first routes
+    # alternating (on a 3x3 lattice 2x2 plaquettes never merge two lines: nothing to observe there)
+    def rank(c):
+        cfg, _, need = c
+        return (0 if (need > maxedge and not cfg["allbonds"] is False) else 1, 0 if need > maxedge else 1)
+    ys = sorted([c for c in cands if c[0]["route"] == "y"], key=rank)
+    xs = sorted([c for c in cands if c[0]["route"] == "x"], key=rank)
+    order = []
+    while ys or xs:
+        if ys:
+            order.append(ys.pop(0))
+        if xs:
+            order.append(xs.pop(0))
+    for cfg, call, need in order[:nmax]:
+        caps = trunc_caps(need, maxedge)[-1:] + ([need] if rng.random() < 0.4 or need <= maxedge else [])
+        for cap in caps:
+            run_envs(lat, "grid:plaquette_environments", cfg, cap, call, "plaq")
+        stats["grid:plaquette_environments"] = stats.get("grid:plaquette_environments", 0) + 1
+
+
+def pair_jobs(lat, rng, stats):
+    """compress_between / tensor_compress_bond on single bonds with cutoff = 0, every absorb, both orders, every cap below
+    the bond: the bond must come back within the cap (and the network unchanged when the cap suffices)"""
+    import quimb.tensor as qtn
+
+    tags = sorted(g for g in lat.tn.tag_map if lat.geo.rx.match(g))
+    pairs = []
+    for x in range(len(tags)):
+        for y in range(len(tags)):
+            if x != y:
+                ta, tb = lat.tn[tags[x]], lat.tn[tags[y]]
+                b = U.shared_size(ta, tb)
+                if b > 1 and set(ta.inds) & set(tb.inds):
+                    pairs.append((tags[x], tags[y], b))
+    rng.shuffle(pairs)
+    for a, b, bond in pairs[:6]:
+        for absorb in ("right", "left", "both"):
+            for cap in list(range(1, bond)) + [bond]:
+                for fn in ("compress_between", "tensor_compress_bond"):
+                    if fn == "tensor_compress_bond" and rng.random() < 0.6:
+                        continue
+                    cfg = {"mode": "pair", "fn": fn, "a": a, "b": b, "absorb": absorb}
+
+                    def call(rec, cap, cfg=cfg):
+                        tn = lat.tn.copy()
+                        t1, t2 = tn[cfg["a"]], tn[cfg["b"]]
+                        pre = U.shared_size(t1, t2)
+                        if cfg["fn"] == "compress_between":
+                            tn.compress_between(cfg["a"], cfg["b"], max_bond=cap, cutoff=0.0, absorb=cfg["absorb"])
+                        else:
+                            qtn.tensor_compress_bond(t1, t2, max_bond=cap, cutoff=0.0, absorb=cfg["absorb"])
+                        t1, t2 = tn[cfg["a"]], tn[cfg["b"]]
+                        rec.emit({"ev": "compress", "pre": pre, "post": U.shared_size(t1, t2),
+                                  "a": sorted(lat.geo.sites_of_tags(t1.tags)), "b": sorted(lat.geo.sites_of_tags(t2.tags))})
+                        return tn
+                    lat.run("pair:" + fn, cfg, cap, call, "tn")
+        stats["pair"] = stats.get("pair", 0) + 1
 
 
 # =============================================================================== lattice menu
@@ -897,10 +1061,10 @@ def make_lattices(rng, tier):
     k = 1 if q else 6
     for rep in range(k):
         hb, vb = grid(3, 3, [2, 2, 2, 1] if rep else [2])
-        out.append(("2d", dict(Lx=3, Ly=3, hb=hb, vb=vb, cplx=bool(rep % 2)), dict(boundary=30 if q else 60, around=4, env=7 if q else 14, comp=3)))
+        out.append(("2d", dict(Lx=3, Ly=3, hb=hb, vb=vb, cplx=bool(rep % 2)), dict(boundary=24 if q else 60, around=4, env=6 if q else 14, comp=3, grid=1, plaq=7 if q else 12)))
         Lx, Ly = rng.choice([(4, 2), (2, 4), (4, 3), (3, 4)])
         hb, vb = grid(Lx, Ly, [2, 2, 1, 3] if Lx * Ly <= 8 else [2, 2, 1, 1])
-        out.append(("2d", dict(Lx=Lx, Ly=Ly, hb=hb, vb=vb, cplx=not rep % 2), dict(boundary=25 if q else 60, around=3, env=6 if q else 14, comp=3)))
+        out.append(("2d", dict(Lx=Lx, Ly=Ly, hb=hb, vb=vb, cplx=not rep % 2), dict(boundary=20 if q else 60, around=3, env=5 if q else 14, comp=3, grid=1, plaq=7 if q else 12)))
         cyc = rng.choice([(True, False), (False, True), (True, True)])
         Lx, Ly = (3, 3)
         hb, vb = grid(Lx, Ly, [2, 1, 1] if cyc == (True, True) else [2, 2, 1], cyc=cyc)
@@ -908,7 +1072,7 @@ def make_lattices(rng, tier):
         out.append(("peps", dict(Lx=2, Ly=rng.choice([2, 3]) if not q else 2, D=2, p=2, cplx=True), dict(boundary=8 if q else 25, around=0, env=5 if q else 12, comp=0)))
         Lx, Ly = rng.choice([(3, 2), (2, 3), (3, 3)]) if not q else rng.choice([(3, 2), (2, 3)])
         hb, vb, phys = grid(Lx, Ly, [2, 1, 1] if Lx * Ly > 6 else [2, 2, 1], budget=256, physch=[2, 1, 1] if Lx * Ly > 6 else [2, 1])
-        out.append(("layered", dict(Lx=Lx, Ly=Ly, hb=hb, vb=vb, phys=phys, cplx=bool(rep % 2)), dict(boundary=14 if q else 40, around=2, env=5 if q else 12, comp=0)))
+        out.append(("layered", dict(Lx=Lx, Ly=Ly, hb=hb, vb=vb, phys=phys, cplx=bool(rep % 2)), dict(boundary=12 if q else 40, around=2, env=4 if q else 12, comp=0, grid=1, plaq=3 if q else 8)))
         dims = rng.choice([(2, 2, 2), (3, 2, 2), (2, 2, 3), (2, 3, 2)]) if not q else (2, 2, 2)
         ch = [2] if dims == (2, 2, 2) else [2, 1, 1]
         import itertools
@@ -947,7 +1111,11 @@ def make_lattices(rng, tier):
                 ok = ok and all(d * d <= tot for d in ds)
             if ok:
                 break
-        out.append(("graph", dict(n=n, gedges=ge, sizes=sizes, cplx=bool(rep % 2)), dict(comp=14 if q else 40)))
+        out.append(("graph", dict(n=n, gedges=ge, sizes=sizes, cplx=bool(rep % 2)), dict(comp=14 if q else 40, pair=1)))
+        # a chain  v - A = B - w  whose middle bond is larger than the outer size of either tensor, outer sizes unequal:
+        # the SVD-free shortcut of _compress_between_tids (cutoff = 0) has to pick the right side
+        la, rb = rng.choice([(3, 2), (2, 1), (3, 1), (2, 3), (1, 2)])
+        out.append(("graph", dict(n=4, gedges=[(0, 1), (1, 2), (2, 3)], sizes=[la, rng.choice([3, 4]), rb], cplx=bool(rep % 2)), dict(comp=0, pair=1)))
     return out
 
 
@@ -969,6 +1137,12 @@ def run(ctx):
             run_jobs(lat, rng, boundary_jobs_2d(lat, rng, nj.get("boundary", 0)), stats)
             run_jobs(lat, rng, around_jobs_2d(lat, rng, nj.get("around", 0)), stats)
             env_jobs_2d(lat, rng, nj.get("env", 0), stats)
+            if nj.get("grid", 0):
+                grid_jobs_2d(lat, rng, stats)
+            if nj.get("plaq", 0):
+                plaq_grid_jobs(lat, rng, stats, nj["plaq"])
+        if nj.get("pair", 0):
+            pair_jobs(lat, rng, stats)
         if kind == "3d":
             run_jobs(lat, rng, boundary_jobs_3d(lat, rng, nj.get("boundary3d", 0)), stats)
         run_jobs(lat, rng, compressed_jobs(lat, rng, nj.get("comp", 0)), stats)
